@@ -746,8 +746,7 @@ def replay(body):
     r = body.get('replay', {})
     group = r.get('oracle')
     if body.get('kind') != 'impl' or group is None:
-        out(body['what'])
-        return 1
+        return common.replay_rerun(sys.modules[__name__], body)
     explore(chk, 1, 'C19', lean=False, only={'hist': 'hist', 'columns': 'columns', 'date': 'date', 'event-file': 'event-file',
                                             'simulated-event-file': 'simulated-event-file', 'binned': 'binned'}[group])
     bad = [v for v in chk.violations if v['kind'] == 'impl']
